@@ -322,6 +322,12 @@ func (s *Sim) runC03Scenario(sc *Scenario, r *Rng) {
 		s.Stats.States[fmt.Sprintf("%s|%s|%s|%d", route, occurrence(ex.Calls, first), mode, len(fail))] = true
 		if ex.V.Success {
 			s.violate("C03", "failure-implies-error-ack", fp, fmt.Sprintf("scenario %s: %s failed (%s) but the acknowledgement is a success; effects kept: %v", sc.Desc, label, mode, ex.V.Deltas))
+			// C04 says the same of the fees: every entry is credited exactly, or the whole transfer is refused with nothing
+			// paid - an acknowledged transfer whose credits differ from the fault-free ones paid some entry wrongly
+			if in.Payload.HasFee && strings.Join(ex.V.Deltas, "|") != strings.Join(dry.V.Deltas, "|") {
+				s.Stats.Count("rule:C04.exact-or-refused-under-fault")
+				s.violate("C04", "exact-fee-credits", fmt.Sprintf("credits-differ-after-swallowed-failure site=%s mode=%s", occurrence(ex.Calls, first), mode), fmt.Sprintf("scenario %s: %s failed (%s), success acknowledged, credits %v instead of %v", sc.Desc, label, mode, ex.V.Deltas, dry.V.Deltas))
+			}
 			sc.Fail = fail
 		} else if len(ex.V.Deltas) != 0 {
 			s.violate("C03", "U2-error-ack-no-effect", "effects-after-error-ack", fmt.Sprintf("scenario %s: %v", sc.Desc, ex.V.Deltas))
@@ -1198,19 +1204,24 @@ func (s *Sim) runC06Scenario(sc *Scenario) {
 	// success must still be the complete fold - an action is never silently skipped
 	if n := len(ex.Calls); n > 0 {
 		fr := NewRng(uint64(len(sc.Memo))*1000003 + uint64(A.Uint64()))
-		for k := 0; k < 3; k++ {
-			idx, mode := fr.Intn(n), []int{faultBefore, faultPanic, faultPanic}[fr.Intn(3)]
+		for k := 0; k < 6; k++ {
+			idx, mode := fr.Intn(n), []int{faultBefore, faultBefore, faultPanic}[fr.Intn(3)]
 			if ex.Calls[idx].Site == "bank.GetBalance" {
 				continue
 			}
+			cls := fr.Intn(len(injectedErrClasses)) // the class of error the failing call returns
+			errClass = cls
 			fx := s.execScenario(sc, map[int]int{idx: mode})
+			if mode == faultBefore {
+				s.Stats.Fault("injected_error_class:" + injectedErrNames[cls])
+			}
 			s.Stats.Count("rule:C06.order-under-fault")
 			s.Stats.Fault(map[int]string{faultBefore: "injected_error:", faultPanic: "injected_panic:"}[mode] + ex.Calls[idx].Site)
 			if fx.V.Panic != "" || !fx.V.Success || len(fx.Fired) == 0 {
 				continue // aborted transaction or error acknowledgement: nothing is kept
 			}
 			// the failed call itself is recorded although it did not happen: a success after it is already wrong
-			bad("C06", "order-on-running-amount", "success-although-a-step-failed site="+ex.Calls[idx].Site+" mode="+map[int]string{faultBefore: "error", faultPanic: "panic"}[mode], "call #%d (%s) of the delivery failed, the acknowledgement is a success and the calls were %v", idx, ex.Calls[idx].Site, siteList(fx.Calls))
+			bad("C06", "order-on-running-amount", "success-although-a-step-failed site="+ex.Calls[idx].Site+" mode="+map[int]string{faultBefore: "error/" + injectedErrNames[cls], faultPanic: "panic"}[mode], "call #%d (%s) of the delivery failed, the acknowledgement is a success and the calls were %v", idx, ex.Calls[idx].Site, siteList(fx.Calls))
 		}
 	}
 	// statistics: one entry when the denomination is unchanged, two otherwise (C12)
